@@ -417,7 +417,7 @@ def since_post(ctx):
     kw = calls[0][2]
     H = ctx.H
     return And(is_kind(sl, "StackSlice"), H.getf(sl, "outer") == ctx.args["outer"].t, H.getf(sl, "inner") == NONE, H.getf(sl, "limit") == NONE,
-               kw["with_contexts"] == ctx.args["wc"].t, kw["recurse_child_tasks"] == ctx.args["rct"].t,
+               kw.get("with_contexts", mkbool(True)) == ctx.args["wc"].t, kw.get("recurse_child_tasks", mkbool(False)) == ctx.args["rct"].t,
                Or(Val.is_none(ctx.args["outer"].t), is_kind(ctx.args["outer"].t, "frame")))
 
 
@@ -481,7 +481,9 @@ def until_post(ctx):
     H = ctx.H
     lim = a["limit"].t
     n = ctx.p.ghost.get("un_n")
-    common = And(is_kind(sl, "StackSlice"), H.getf(sl, "inner") == a["inner"].t, kw["with_contexts"] == a["wc"].t, kw["recurse_child_tasks"] == a["rct"].t)
+    # an option that is not forwarded takes extract()'s default (with_contexts=True, recurse_child_tasks=False)
+    common = And(is_kind(sl, "StackSlice"), H.getf(sl, "inner") == a["inner"].t, kw.get("with_contexts", mkbool(True)) == a["wc"].t,
+                 kw.get("recurse_child_tasks", mkbool(False)) == a["rct"].t)
     if n is not None:
         o = H.getf(sl, "outer")
         # frame limit: the slice starts at the limit frame, which is an f_back ancestor of inner_frame (or, on a cyclic chain,
